@@ -519,6 +519,9 @@ class Merge(Expr):
                         # for the suffix to be applied
                         project_left.append(col)
 
+            # a right column can be picked up by both loops above
+            project_right = [col for col in right.columns if col in project_right]
+
             if set(project_left) < set(left.columns) or set(project_right) < set(
                 right.columns
             ):
